@@ -22,10 +22,14 @@ def generate(r):
     for i in range(nstat):
         order = r.sample(FIELDS, 3)
         init = " ".join("self.%s = base + %d;" % (f, j) for j, f in enumerate(order))
-        lines.append("class S%d { init(base) { %s } m() { 'S%d.m' } n(x) { x + self.p } static make(b) { S%d(b) } }" % (i, init, i, i))
+        # (buddy: a field that holds an instance of any other class; peekp/peekr read a field of that instance through self)
+        lines.append("class S%d { init(base) { %s self.buddy = nil; } m() { 'S%d.m' } n(x) { x + self.p } static make(b) { S%d(b) } "
+                     "peekp() { self.buddy.p } peekr() { self.buddy.r } }" % (i, init, i, i))
         static.append(("S%d" % i, order, "S%d.m" % i))
         if r.random() < 0.6:
-            extra = r.choice(["", " init(base) { super.init(base); self.extra = base; }"])
+            # (the last form assigns an inherited field again, with the value it already has, before it adds a field of its own)
+            extra = r.choice(["", " init(base) { super.init(base); self.extra = base; }",
+                              " init(base) { super.init(base); self.p = base + %d; self.extra = base + 77; }" % order.index("p")])
             lines.append("class T%d : S%d {%s m() { 'T%d.m>' + super.m() } }" % (i, i, extra, i))
             static.append(("T%d" % i, order, "T%d.m>S%d.m" % (i, i)))
             if r.random() < 0.5:
@@ -121,7 +125,13 @@ def generate(r):
             lines.append("garbage(%d);" % r.choice([5, 50, 300]))
         if r.random() < 0.25:
             lines.append("classes(%d);" % r.choice([1, 3, 8]))
-        site = r.choice(["m", "p", "q", "n", "mix", "bound", "incr", "peer", "peer", "launch", "launch", "peerm", "peerm"])
+        site = r.choice(["m", "p", "q", "n", "mix", "bound", "incr", "peer", "peer", "launch", "launch", "peerm", "peerm", "buddy"])
+        if site == "buddy":
+            # a field of another object read through self.<field>.<name>: the other object's class decides where it is
+            name, order, _ = r.choice(static)
+            lines.append("if true { let host = %s(1); host.buddy = %s; print(host.peekp(), host.peekr(), host.p); }" % (name, expr))
+            expect.append("%d %d %d" % (fields["p"], fields["r"], 1 + order.index("p")))
+            continue
         if site == "peerm" and not (expr.startswith("PS(") or expr.startswith("PBase(")):
             site = "m"
         if wide and r.random() < 0.5 and tag not in (None, "ARITY", "shadow") and not tag.endswith("-field"):
@@ -233,8 +243,14 @@ class C13(Check):
         gc = schedules.random_schedule(rng, self.startup, self.startup + 2000)
         # a third of the programs are entered line by line at the prompt: every entry is compiled separately into the
         # same module and keeps extending that module's cache
-        return {"program": program, "expect": expect, "gc": gc, "arena": schedules.random_policy(rng, 0.7),
-                "repl": rng.random() < 0.33}
+        repl = rng.random() < 0.33
+        if repl and rng.random() < 0.4:
+            # at the prompt a failed import does not end the session: the modules loaded afterwards still get caches of their own
+            program["files"]["/sim/badmod.lay"] = "export fn oops( { 1 }\n"
+            program["lines"].insert(0, "import self.badmod;")
+            program["files"][program["main"]] = "\n".join(program["lines"]) + "\n"
+            program["header"] = program.get("header", 0) + 1
+        return {"program": program, "expect": expect, "gc": gc, "arena": schedules.random_policy(rng, 0.7), "repl": repl}
 
     def judge(self, ctx, case):
         program = case["program"]
